@@ -12,6 +12,7 @@ CONSTANTS
   KBig = 7
   NBigMin = 6
   NBigMax = 14
+  Select = "all"
 INIT InitBigX
 NEXT NextBigX
 INVARIANT NoBrokenRule
